@@ -11,12 +11,13 @@ PROPERTY = "C15"
 LEVEL = "translation_validation"
 FUNCTIONS = [("pandapower.contingency.contingency_parallel", "_update_contingency_results_parallel"),
              ("pandapower.contingency.contingency", "_update_contingency_results"),
-             ("pandapower.contingency.contingency_parallel", "_run_single_contingency")]
+             ("pandapower.contingency.contingency_parallel", "_run_single_contingency"),
+             ("pandapower.contingency.contingency_parallel", "run_contingency_parallel"), ("pandapower.contingency.contingency", "run_contingency")]
 STUBS = ["multiprocessing.Pool.map by its contract (ordered list of worker returns); worker result packs are symbolic vectors with the "
          "outaged element's own entry as a real run produces it (0.0 / NaN)", "power flows as in C14"]
 ASSUMPTIONS = c14.ASSUMPTIONS
 OUTSIDE = ["process start-up, pickling of the net into the workers", "run_contingency_ls2g"]
-BOUNDS = {"quick": "3 lines, 1 bus; case lists of length 2 (all 3 aggregation paths) and 3 (without bus)",
+BOUNDS = {"quick": "3 lines, 1 bus; case lists of length 2 (all 3 aggregation paths) and 3 (without bus); the real run_contingency_parallel vs run_contingency on 2 lines + trafo + trafo3w with overlapping indices (3 case lists)",
           "thorough": "all case lists over 3 lines, all aggregation orders of the packs"}
 NAN = float("nan")
 
@@ -59,6 +60,17 @@ def make_fn(n, order, own_val, mode, agg_order=None, with_bus=True):
     return fn
 
 
+def make_real(cases, entry):
+    """the real run_contingency_parallel (pool replaced by its contract) against the real run_contingency on a net with lines, a transformer
+    and a three-winding transformer with overlapping indices"""
+    def fn(ctx):
+        net_s, cr_s, L, lim, VM = c14.run_real(ctx, cases, "sequential")
+        net_p, cr_p, L2, lim2, VM2 = c14.run_real(ctx, cases, entry)
+        compare(ctx, "parallel_equals_sequential", cr_s, cr_p)
+        c14.obligations_real(ctx, cases, net_p, cr_p, L2, lim2, VM2, label="parallel/")
+    return fn
+
+
 def instances(tier):
     out = []
     n = 3
@@ -81,6 +93,13 @@ def instances(tier):
             nm = f"lines{n}_order{''.join(map(str, order))}_{mode}" + (f"_agg{''.join(map(str, agg))}" if agg else "") + f"_{tag}"
             out.append(Inst(nm, make_fn(n, order, own, mode, agg, wb), nvars=26, samples=2, max_paths=40000,
                             meta=dict(lines=n, case_order=order, path=mode, aggregation_order=agg, own_outage_entry=tag, with_bus=wb)))
+    real = [([("line", 0), ("trafo", 0), ("trafo3w", 0)], "parallel"), ([("trafo3w", 0), ("line", 0)], "parallel"), ([("trafo", 0), ("line", 0)], "single_proc")]
+    if tier == "thorough":
+        real += [([("trafo", 0), ("line", 1), ("trafo3w", 0)], "parallel"), ([("line", 0), ("trafo", 0), ("trafo3w", 0)], "single_proc")]
+    for cases, entry in real:
+        nm = f"run_contingency_parallel_{entry}_" + "_".join(f"{e}{i}" for e, i in cases)
+        out.append(Inst(nm, make_real(cases, entry), nvars=60, samples=2, max_paths=60000, raises=(UserWarning,),
+                        meta=dict(entry="run_contingency_parallel", n_procs=2 if entry == "parallel" else 1, cases=[list(c) for c in cases])))
     return out
 
 
